@@ -211,7 +211,9 @@ def scenario(sim):
         run_channel(sim, case)
     else:
         run_stream(sim, case)
-    return {"sample": {k: v for k, v in case.items() if k not in ("rprog", "wprog")}, "nontrivial": True,
+    key = repr((case["family"], case["kind"], case["rmode"], case["wmode"], bufclass(case["bufsize"]), case["chunk_style"],
+                case["eof_style"], case["wchunk_style"], [o[0] for o in case["rprog"]], [o[0] for o in case["wprog"]]))
+    return {"sample": {k: v for k, v in case.items() if k not in ("rprog", "wprog")}, "nontrivial": True, "case_key": key,
             "counts": [case["family"], case["kind"], bufclass(case["bufsize"]),
                        case["rmode"] if case["kind"] != "write" else case["wmode"]]}
 
